@@ -464,7 +464,7 @@ HAND_EXPLICIT = {"v1", "v2", "tmp", "i", "x", "row", "el", "it", "idx", "e", "pa
 PROBE_CLAUSE_VIOLATIONS_REPORTED = True
 # Probes whose (genuine) clause violations on the unchanged tree await the fix / known-finding
 # decision: recorded in the evidence, not yet reported.  Empty this set once decided.
-PROBES_PENDING_DECISION = {"10"}
+PROBES_PENDING_DECISION: set[str] = set()
 
 # (n, what the seeding agent says, templates, root, data) -- checked on the unchanged tree; the
 # verdicts go to the evidence (set `probe_results`, notes), see SCOPE_MISMATCH_IS_VIOLATION
